@@ -244,6 +244,7 @@ def g_row(K, prop, fid, reps, tag=""):
     if tree is None or tree[0] == "?":
         return [Ob("%s:G:%s:%s%s" % (prop, K.config, fid, tag and ":" + tag), prop, "G", K.config, fid, UNDECIDED,
                    "not summarisable (%s)" % (tree[1] if tree else "recursion",), loc)]
+    guards._DESCEND = (S, F)
     for name, env_fn, exp_fn in reps:
         key = "%s:G:%s:%s:%s" % (prop, K.config, fid, name)
         status, detail = PROVED, ""
